@@ -99,7 +99,8 @@ def run(res, tier, rng):
         if not o["quoted"]:
             from ural.quote import safely_unquote_path as up
             from ural.utils import normpath as _np
-            p_in = up(r0.path)
+            from ural.quote import upper_quoted as _uq2
+            p_in = up(_uq2(r0.path))          # escapes are upper-cased first (C02's spelling rule)
             p_in = _np(p_in) if p_in else p_in
             segs_in = [x for x in p_in.split("/")[1:]] if p_in.startswith("/") else None
             segs_out = [x for x in sp.path.split("/")[1:]] if sp.path.startswith("/") else ([] if sp.path == "" else None)
